@@ -6,15 +6,19 @@ import (
 )
 
 func Normalize(json any) any {
-	proc := ld.NewJsonLdProcessor()
-	options := ld.NewJsonLdOptions("")
-	context := make(types.ObjectMap)
-	flattened, err := proc.Flatten(json, context, options)
+	flattened, err := normalize(json)
 	if err != nil {
 		panic(err)
 	}
 
 	return flattened
+}
+
+func normalize(json any) (any, error) {
+	proc := ld.NewJsonLdProcessor()
+	options := ld.NewJsonLdOptions("")
+	context := make(types.ObjectMap)
+	return proc.Flatten(json, context, options)
 }
 
 func Index(json any) any {
